@@ -68,9 +68,9 @@ def gen_block(rng, clean: bool) -> list:
         elif r < 0.70:
             items.append(["comment", gen_text(rng, px, 0.2)])
         elif r < 0.80:
-            items.append(["event", gen_text(rng, px, pl)])
+            items.append(["event", "" if rng.random() < 0.15 else gen_text(rng, px, pl)])
         elif r < 0.90:
-            items.append(["id", gen_text(rng, px, pl)])
+            items.append(["id", "" if rng.random() < 0.2 else gen_text(rng, px, pl)])
         else:
             items.append(["retry", rng.choice(["0", "7", "3000", "0012", "123456789012345678901234567890"])])
     return items
@@ -588,8 +588,8 @@ def main(chk: Check, replay: dict | None = None) -> int:
                            "mismatches": len(unprintable), "first": {"input": unprintable[0]["input"]}})
     # Attribution of an oracle failure to a listed finding needs model = implementation on the observables the oracle
     # looks at item by item (lines, events, records; bits 8, 11..17).  A disagreement that is confined to the *shape*
-    # of the byte/text chunks (bits 9, 10: only their concatenation is constrained by the property) is reported as a
-    # broken correspondence of its own and does not turn known findings into violations.
+    # of the byte/text chunks (bits 9, 10: only their concatenation is constrained by the property) is recorded in the
+    # evidence but is neither a broken correspondence nor a reason to turn known findings into violations.
     dcodes = None
     if codes is not None:
         ITEM = (1 << 8) | sum(1 << b for b in range(11, 18))
@@ -597,12 +597,12 @@ def main(chk: Check, replay: dict | None = None) -> int:
         dcodes = [(c & ~1 & 0xFF) | (1 if c & ITEM else 0) for c in codes]
         shape = [cases[i] for i, c in enumerate(codes) if c & SHAPE]
         if shape:
+            # informational only: the property constrains the concatenation of these items (checked by the oracle on the
+            # implementation and proved for the model), not how httpx cuts them
             first = min(shape, key=lambda c: len(json.dumps(c["input"])))
-            chk.broken.append({"kind": "correspondence",
-                               "name": "Corr.C18.run (chunk shapes): iter_bytes / aiter_text items = model's, per chunking",
-                               "mismatches": len(shape), "first": {"input": first["input"], "obs": first["obs"]}})
-            chk.say(f"[C18] chunk-shape correspondence (iter_bytes/aiter_text items) broken on {len(shape)} case(s); "
-                    f"smallest: {json.dumps(first['input'])[:300]}")
+            chk.cov["chunk_shape_differences"] = {"cases": len(shape), "first": first["input"]}
+            chk.say(f"[C18] note: iter_bytes/aiter_text items are cut differently from the model's on {len(shape)} case(s) "
+                    f"(not part of the property; concatenations are checked); smallest: {json.dumps(first['input'])[:200]}")
     chk.decide(cases, dcodes, {1: "F18a", 2: "F18b"},
                "Corr.C18.run: model(chunks) = real helpers over httpx.Response(content=<async chunk iterator>)")
     if codes is not None:
